@@ -91,7 +91,7 @@ pub fn run_one(seed: u64) -> Result<(Vec<Viol>, u64), String> {
             if sent - done >= 1025 {
                 break;
             }
-            let payload = if big { format!("mb{}:{}", idx, "x".repeat(1090)) } else { format!("mb{}", idx) };
+            let payload = if big { format!("mb{}:{}", idx, "x".repeat(2100)) } else { format!("mb{}", idx) };
             if idx % 7 == 3 {
                 do_write(&mut st, &mut m, &mut j, Op::Commit((1, idx.saturating_sub(1))), &mut nrec)?;
             } else {
@@ -106,6 +106,50 @@ pub fn run_one(seed: u64) -> Result<(Vec<Viol>, u64), String> {
         }
         let (sent, done) = st.seq();
         queued = sent - done;
+        // One more flush from a helper thread: its send blocks on the full queue and completes as soon as the
+        // worker takes the first queued request, so that the batch the worker is collecting at that moment can
+        // grow beyond the queue's capacity (whether it lands in that very batch is up to the scheduler).
+        {
+            let next = m.st.last.map(|l| l.1 + 1).unwrap_or(0);
+            do_write(&mut st, &mut m, &mut j, Op::Append(vec![((1, next), "blocked-sender".to_string())]), &mut nrec)?;
+            let gend = st.rl().stat().open_chunk.global_end;
+            let ev = trace::ev_count();
+            let fid = trace::next_flush_id();
+            flushes.push(FlushRec { id: fid, step: flushes.len(), writes_before: nrec, gend, cb: true, ev, removed: vec![], call_ok: true });
+            trace::note(crate::trace::Ek::FlushCall { flush: fid, gend });
+            let released = std::sync::atomic::AtomicBool::new(false);
+            let mut flush_err = None;
+            std::thread::scope(|sc| {
+                let h = sc.spawn(|| {
+                    use raft_log::api::raft_log_writer::RaftLogWriter;
+                    let r = st.rl_mut().flush(Some(crate::store::AckCb::new(fid)));
+                    released.store(true, std::sync::atomic::Ordering::SeqCst);
+                    r.map_err(|e| e.to_string())
+                });
+                // give the helper time to block in send(), then let the worker go
+                let t0 = util::now_s();
+                while util::now_s() - t0 < 0.003 {
+                    std::thread::yield_now();
+                }
+                let mut guard = 0u64;
+                while !h.is_finished() && guard < 2_000_000 {
+                    guard += 1;
+                    for (t, w, _) in trace::gate_lanes(Role::Worker) {
+                        if w.is_some() {
+                            wtid = Some(t);
+                            trace::gate_grant(t, 1);
+                        }
+                    }
+                    std::thread::yield_now();
+                }
+                if let Ok(Err(e)) = h.join() {
+                    flush_err = Some(e);
+                }
+            });
+            if let Some(e) = flush_err {
+                return Err(format!("blocked flush failed: {}", e));
+            }
+        }
         // release
         if !drain(&st, &mut wtid) {
             return Err("worker did not drain the full queue".into());
